@@ -167,7 +167,19 @@ func selPath(e ast.Expr) (string, bool) {
 	return "", false
 }
 
-func leanIdent(p string) string { return strings.ReplaceAll(p, ".", "_") }
+// Go identifiers that are Lean keywords get a trailing underscore (e.g. a result named `end`).
+var leanKeywords = map[string]bool{"end": true, "at": true, "from": true, "have": true, "show": true, "fun": true,
+	"then": true, "else": true, "do": true, "let": true, "in": true, "with": true, "match": true, "open": true,
+	"def": true, "theorem": true, "where": true, "by": true, "instance": true, "structure": true, "namespace": true,
+	"section": true, "variable": true, "universe": true, "mutual": true, "deriving": true, "using": true, "this": true}
+
+func leanIdent(p string) string {
+	p = strings.ReplaceAll(p, ".", "_")
+	if leanKeywords[p] {
+		return p + "_"
+	}
+	return p
+}
 
 // typeOf returns the Go type of an expression ("" = untyped constant)
 func (t *tr) typeOf(e ast.Expr) string {
